@@ -272,9 +272,26 @@ func (ex *Exec) send(st *State, in *ssa.Send, pos string) {
 	st.heap[base+".nsent"] = p.Store(nr, ch, p.Add(n, p.Int(1)))
 }
 
+// countRecv: one more value received from ch (ghost counter nrecv(ch)); when is the condition under which it happened
+func (ex *Exec) countRecv(st *State, chv ssa.Value, when *Term) {
+	p := ex.p
+	el := chv.Type().Underlying().(*types.Chan).Elem()
+	base := "chan:" + shortTypeName(el)
+	ch := ex.term(st, chv)
+	nr := ex.getRegion(st, base+".nrecv", p.ArraySort(IntSort, IntSort))
+	n := p.Select(nr, ch)
+	ex.facts = append(ex.facts, p.Ge(n, p.Int(0)))
+	upd := p.Store(nr, ch, p.Add(n, p.Int(1)))
+	if when != nil {
+		upd = p.Ite(when, upd, nr)
+	}
+	st.heap[base+".nrecv"] = upd
+}
+
 func (ex *Exec) recv(st *State, in *ssa.UnOp, pos string) Val {
 	p := ex.p
 	el := in.X.Type().Underlying().(*types.Chan).Elem()
+	ex.countRecv(st, in.X, nil)
 	v := p.Fresh("recv", ex.tm.SortOf(el))
 	ex.facts = append(ex.facts, ex.tm.InRange(v, el, 0))
 	if in.CommaOk {
@@ -300,6 +317,7 @@ func (ex *Exec) selectInstr(st *State, in *ssa.Select, pos string) {
 			v := p.Fresh("recv", ex.tm.SortOf(el))
 			ex.facts = append(ex.facts, ex.tm.InRange(v, el, 0))
 			res = append(res, v)
+			ex.countRecv(st, s.Chan, p.Eq(idx, p.Int(int64(i))))
 			// a case that fires on ctx.Done() is an observation that the context has ended: recorded in the ghost
 			// variable ctxEnded where a contract declares it (the choice among the cases stays free)
 			if c, ok := s.Chan.(*ssa.Call); ok && c.Call.IsInvoke() && c.Call.Method.Name() == "Done" {
